@@ -28,7 +28,8 @@
    16-byte aligned, so rbp - 32k is not a multiple of 32 (recorded finding: over-aligned locals). *)
 EXTENDS Integers, Sequences, TLC
 
-CONSTANTS MaxLocals, MaxAlign, Variant
+CONSTANTS MaxLocals, MaxAlign, Variant,
+          InitLocals      \* Reinit is explored in frames of at most InitLocals locals
 
 AlignTo(n, a) == ((n + a - 1) \div a) * a
 Mx(a, b) == IF a > b THEN a ELSE b
@@ -56,7 +57,7 @@ ZeroRange(i) ==
   IN CASE Variant = "zero_round8" /\ o % 8 = 0 /\ sz <= 64 -> <<o, o + AlignTo(sz, 8)>>
        [] Variant = "zero_down8" /\ sz >= 8 -> <<o, o + (sz \div 8) * 8>>
        [] OTHER -> <<o, o + sz>>
-Reinit(i) == /\ i \in DOMAIN locals /\ zr' = <<i>> \o ZeroRange(i) /\ UNCHANGED <<locals, offs, bottom>>
+Reinit(i) == /\ i \in DOMAIN locals /\ Len(locals) <= InitLocals /\ zr' = <<i>> \o ZeroRange(i) /\ UNCHANGED <<locals, offs, bottom>>
 Next == (\E k \in Kinds : Add(k)) \/ (\E i \in 1..MaxLocals : Reinit(i))
 Spec == Init /\ [][Next]_vars
 
